@@ -96,8 +96,9 @@ func init() {
 func init() {
 	register(&PropDef{
 		ID: "C02", Patterns: []string{"./interp"}, Specs: []string{"ops", "opsbv"},
-		Covered: []string{"operand extractors of value.go", "operator generators of op.go: every run-time closure against the Go-spec value per kind", "cfg binary/unary expression cases: an operator node stored into an interface destination has a concrete type its generator can compute in"},
-		Uncov:   []string{"which generator cfg.go selects and into which slot in general (A1, A2)", "float32 double rounding (T7)"},
+		Extra: func(r *Run) { r.dispatchTables() },
+		Covered: []string{"operand extractors of value.go", "operator generators of op.go: every run-time closure against the Go-spec value per kind", "cfg binary/unary expression cases: an operator node stored into an interface destination has a concrete type its generator can compute in", "dispatch tables, entry by entry: operator token -> action (ast.go, per context), action -> generator (builtin), action -> constant folder (constOp, constBltn)"},
+		Uncov:   []string{"into which slot cfg.go lets a generator write in general (A2)", "float32 double rounding (T7)"},
 		Trusted: []string{"T1 go toolchain, solvers", "T2 govc", "T3 reflect.Value model (Set* truncate to kind, Int/Uint read the content, Convert is Go conversion)", "A1 typing precondition", "A2 genValue/genValueOutput denote operand/destination", "T7 float32 double rounding"},
 	})
 }
@@ -105,6 +106,7 @@ func init() {
 func init() {
 	register(&PropDef{
 		ID: "C03", Patterns: []string{"./interp"}, Specs: []string{"ops", "consts"},
+		Extra: func(r *Run) { r.dispatchTables() },
 		Covered: []string{"representableConst for every integer kind and every integer constant", "constant folders: untyped operands fold to go/constant's operation with the spec token (QUO_ASSIGN exactly for untyped integer results); typed operands compute the kind's operation", "typed constant overflow must be rejected (known finding)", "representableConst for float, complex, string and bool kinds", "convertConst / convertConstantValue / genValueAs: single rounding per target kind, no refusal of representable constants", "representable / convertUntyped imply representableConst; return statement, comparison operand and send statement (finding) demand representability", "constant builtins len/complex/real/imag", "assignment and index rules of typecheck.go (shared with C12)"},
 		Uncov:   []string{"rounding inside go/constant (its functions are uninterpreted)", "iota bookkeeping and implicit repetition (ast/gta/cfg walks)", "literal parsing", "the remaining places where cfg gives a constant a type (composite literal elements, map keys, call arguments: they go through check.assignment, which is under contract, but the call sites are not)"},
 		Trusted: []string{"T1 go toolchain, solvers", "T2 govc", "T4 go/constant computes exact constant arithmetic (BinaryOp/UnaryOp/Shift/ToInt uninterpreted functions of the token; BitLen(x) <= k iff |x| < 2^k)", "T3 reflect.Value model"},
